@@ -604,20 +604,37 @@ fn build_debug_expr(
             false => quote!(debug_tuple),
         };
         expr.extend(quote!(f.#debug_x(::core::stringify!(#ident))));
+        let mut uses_field = false;
         for field in fields {
             if !field.hattrs.is_debug_ignore() {
                 let e = to_expr(field);
                 let member = field.member();
-                // `&#e` (a reference to the field reference) is `Sized` even if the field is not
+                // A reference to the field reference is `Sized` even if the field is not. It is
+                // turned into `&dyn Debug` by a helper so that the only obligation at this point is
+                // `FieldType: Debug`, exactly what the where-clause provides.
+                uses_field = true;
                 expr.extend(match is_named {
-                    true => quote! (.field(::core::stringify!(#member), &#e)),
-                    false => quote! (.field(&#e)),
+                    true => quote! (.field(::core::stringify!(#member), __derive_ex_debug_ref(&#e))),
+                    false => quote! (.field(__derive_ex_debug_ref(&#e))),
                 });
                 field.push_bounds_to(use_bounds, kind, wcb);
             }
         }
         expr.extend(quote!(.finish()));
-        expr
+        if uses_field {
+            quote! {
+                {
+                    fn __derive_ex_debug_ref<'__a, __T: ?::core::marker::Sized + ::core::fmt::Debug>(
+                        value: &'__a &__T,
+                    ) -> &'__a dyn ::core::fmt::Debug {
+                        value
+                    }
+                    #expr
+                }
+            }
+        } else {
+            expr
+        }
     };
     Ok(expr)
 }
